@@ -65,6 +65,7 @@ type c18Run struct {
 	replayed bool
 	deadline time.Time
 	stop     bool
+	seen     map[string]bool
 }
 
 // take tells whether the case with this id is to be evaluated by this process.
@@ -92,7 +93,18 @@ func (c *c18Run) take(id string) bool {
 	return true
 }
 
+// violate records the first failing case of every kind per shard in full (with
+// a replay record); further ones of the same kind are only counted — they are
+// enumerated simplest-first, so the recorded one is the simplest of its shard.
 func (c *c18Run) violate(key, id, detail string) {
+	if c.seen == nil {
+		c.seen = map[string]bool{}
+	}
+	if c.seen[key] && c.replayID == "" {
+		c.r.Count("violations:"+key, 1)
+		return
+	}
+	c.seen[key] = true
 	c.r.Violate(key, id+": "+detail, c18Replay{Case: id})
 	if c.replayID != "" {
 		fmt.Printf("C18 replay: STILL FAILS key=%s\n  %s\n", key, detail)
